@@ -1,5 +1,6 @@
 /- Driver.Ops — the op table. -/
 import Driver.OpsPath
+import Driver.OpsKey
 namespace Mxj.Drv
 
 def dispatch (op : String) (args : List String) : Out :=
@@ -8,6 +9,9 @@ def dispatch (op : String) (args : List String) : Out :=
   | "vfp1" => runP opVfp1 args
   | "exists" => runP opExists args
   | "parsepath" => runP opParsePath args
+  | "vfk" => runP opVfk args
+  | "pfk" => runP opPfk args
+  | "hsk" => runP opHsk args
   | _ => "bad-op"
 
 end Mxj.Drv
